@@ -13,10 +13,15 @@ PATH = "/verif/known_findings.json"
 
 
 def load_all():
-    if not os.path.exists(PATH):
-        return []
-    with open(PATH) as f:
-        return json.load(f)["findings"]
+    """known_findings.json plus per-property files known/<ID>.json (same format; they let several people work without
+    editing one file; the coordinator merges them)."""
+    import glob
+    res = []
+    for path in [PATH] + sorted(glob.glob("/verif/known/*.json")):
+        if os.path.exists(path):
+            with open(path) as f:
+                res.extend(json.load(f)["findings"])
+    return res
 
 
 class Known:
